@@ -3,7 +3,7 @@ ID = 'C19'
 RULE = ('one case = 2 real nodes over loopback RPC; the sender\'s keyspace state is built by a generated history (empty; tombstone-only; puts/deletes from up to 4 origins through both sources via deliveries and repairs; purged; aged states whose tombstones are old enough to be purged, fetched before and after the purge with no write in between; '
         'or `bulk` states of 100-20 000 entries); the receiver obtains it through the real ReplicationClient::get_state (GetState handler -> Serialize -> frame -> DataView -> nested unchecked decode) and the received set is '
         'compared with the sender\'s own state: all live ids, all tombstones, all stamps, and the per-origin accept/refuse cut-offs (bisected with will_apply); small states are also compared with the Lean cluster model. '
-        'Malformed stream: a peer answering GetState with a CRC-valid frame whose nested bytes are empty / truncated / garbage must produce an error. non-trivial = the transferred state has both live entries and tombstones; distinct by hash')
+        'Malformed stream: a peer answering GetState with a CRC-valid frame whose nested bytes are empty / truncated / garbage, whose envelope points outside the message or declares a length of 1 GiB (D24), or whose root is misplaced by one stray byte in front of the honest reply (D35), must produce an error - not a crash. non-trivial = the transferred state has both live entries and tombstones; distinct by hash')
 ASSUMPTIONS = ['rkyv round trip of the set is a codec assumption for the Lean model; memory safety and alignment of the zero-copy access are runtime facts, observed (debug build: misaligned access panics) not proved']
 TRUSTED_BASE = ['correspondence: dcharness (real ReplicationService::on_message(GetState) + ReplicationClient::get_state over loopback) vs dcdriver (Datacake.Cluster model: the state is transferred unchanged)']
 THEOREM_NOTE = 'observational equivalence of set states (Props/C19.lean: obs_equiv_of_equal_maps)'
